@@ -50,6 +50,16 @@ def unit(rng, ntypes):
             nm = 'en_%s' % tag
             decls.append(dataref.Decl(nm, 'unsigned long %s[] = { sizeof(enum %s), _Alignof(enum %s), (enum %s)-1 < 0, __builtin_types_compatible_p(enum %s, int), __builtin_types_compatible_p(enum %s, unsigned), sizeof(%s_e0), __builtin_types_compatible_p(__typeof__(%s_e0), int), %s_e0 - 1 < 0 };'
                                       % (nm, tag, tag, tag, tag, tag, tag, tag, tag), [nm], meta=d))
+    # types of 4 GiB and more: sizes, offsets and strides are 64-bit quantities all the way
+    for k, t in enumerate([
+            'struct zzb1 { char a[0x100000000]; int x; }; unsigned long zzbig1[] = { sizeof(struct zzb1), _Alignof(struct zzb1), __builtin_offsetof(struct zzb1, x) };',
+            'union zzb2 { char a[0x100000001]; long l; }; unsigned long zzbig2[] = { sizeof(union zzb2), _Alignof(union zzb2) };',
+            'struct zzb3 { char a[0xfffffffc]; int i; }; unsigned long zzbig3[] = { sizeof(struct zzb3), __builtin_offsetof(struct zzb3, i), sizeof(struct zzb3[3]) };',
+            'unsigned long zzbig4[] = { sizeof(int[0x40000000][4]), sizeof(long[0x20000000][3]), sizeof(char[0xffffffff]), sizeof(char[0x100000001]), sizeof(struct { short s[0x80000001]; }), sizeof(struct { char c; long l[0x20000000]; char d; }) };',
+            'struct zzb5 { struct { char a[0x80000000]; } p, q; short s; struct { char a[0x7fffffff]; char b; } r; long t; }; unsigned long zzbig5[] = { sizeof(struct zzb5), __builtin_offsetof(struct zzb5, q), __builtin_offsetof(struct zzb5, s), __builtin_offsetof(struct zzb5, r.b), __builtin_offsetof(struct zzb5, t) };',
+            'struct zzb6 { char a[0x100000000]; int x; }; extern struct zzb6 zzb6v[]; char *zzbig6 = (char *)&zzb6v[2].x; char *zzbig6b = (char *)(zzb6v + 3);']):
+        names = re.findall(r'\b(zzbig\w+)\b(?=[\[\]]* =)', t)
+        decls.append(dataref.Decl('big%d' % k, t, names))
     return prefix, rprefix, decls
 
 
